@@ -459,8 +459,9 @@ class DULServiceProvider(Thread):
             The PDU to be encoded and sent to the peer.
         """
         if self.socket is not None:
-            self.socket.send(pdu.encode())
-            evt.trigger(self.assoc, evt.EVT_PDU_SENT, {"pdu": pdu})
+            # Only notify if the PDU was actually handed to the transport
+            if self.socket.send(pdu.encode()) is not False:
+                evt.trigger(self.assoc, evt.EVT_PDU_SENT, {"pdu": pdu})
         else:
             LOGGER.warning("Attempted to send data over closed connection")
 
